@@ -61,6 +61,24 @@ func mainEngine(o *Out, scnFile string, seed int64, count int, modes string, var
 		cj := cfg.toJSON()
 		o.WriteScenario(id, "engine", src, cj, exp, evs)
 	}
+	if rp := opts["replay"]; rp != "" {
+		// re-execute recorded scenarios (same configuration, same script) on the current tree
+		for _, line := range readLines(rp) {
+			cfg := parseEngineCfg(asMap(line["cfg"]))
+			var script Script
+			var exp []any
+			if asStr(line["src"]) == "tlc" {
+				exp = asList(line["exp"])
+				script = scriptFromHistory(exp)
+			} else {
+				script = scriptForGenerated(cfg)
+			}
+			evs, _ := runEngineScenario(cfg, script)
+			id++
+			o.WriteScenario(asInt(line["scn"]), "engine", asStr(line["src"]), cfg.toJSON(), exp, evs)
+		}
+		return
+	}
 	if scnFile != "" {
 		for _, line := range readLines(scnFile) {
 			base := parseEngineCfg(asMap(line["cfg"]))
@@ -92,7 +110,6 @@ func mainEngine(o *Out, scnFile string, seed int64, count int, modes string, var
 				continue
 			}
 			genEngineScenarios(seed*1000+int64(mi), count, mode, func(cfg EngineCfg, src string, evs []Event) {
-				cfg.Outs = []string{"ok", "err", "nil", "eres"}
 				emit(cfg, src, nil, evs)
 			})
 		}
